@@ -77,6 +77,12 @@ def _fname(f):
     return f"{mod}.{f.__name__}"
 
 
+def _complete_enum(ctypes_):
+    e = ctypes_.EnumType()
+    e.constants = []          # a complete enum type (sizeof refuses incomplete ones)
+    return e
+
+
 def gen_text():
     from ppci.api import get_arch
     from ppci.lang.c import COptions
@@ -103,6 +109,9 @@ def gen_text():
     unsv = [(i, rs.get_type(["unsigned"] + i.split()).type_id) for i in INT_IDS if i in BasicType.SIGNED_INTEGER_TYPES]
     names = [(n, rs.get_type(n.split()).type_id) for n in SPEC_NAMES]
     size_t = CSemantics(ctx).size_t_type.type_id
+    from ppci.lang.c.nodes import types as ctypes_
+    enum_size = ctx.sizeof(_complete_enum(ctypes_))
+    ptr_size = ctx.sizeof(ctypes_.PointerType(BasicType(BasicType.CHAR)))
     out = [
         "/- GENERATED by harness/c27.py regen() from the live ppci objects of the checked tree - do not edit -/",
         "namespace Gen.CEval", "",
@@ -129,6 +138,10 @@ def gen_text():
         f"def typeNames : List (String × String) := {pairs(names, True)}", "",
         "/-- `CSemantics(CContext(x86_64)).size_t_type.type_id` -/",
         f"def sizeType : String := {_s(size_t)}", "",
+        "/-- `ctypes_names[\"ptr\"]`, `sizeof(char *)`, `sizeof(enum E)` on x86_64 -/",
+        f"def ptrFormat : String := {_s(ctx.ctypes_names['ptr'])}",
+        f"def ptrSize : Nat := {ptr_size}",
+        f"def enumSize : Nat := {enum_size}", "",
         "end Gen.CEval", "",
     ]
     return "\n".join(out)
@@ -218,6 +231,11 @@ CORPUS = [
     ("case", "ushort", L(65536)), ("case", "int", ("C", 97)),
     ("enum", "int", B("add", L(3), L(4))), ("enum", "int", neg(L(5))), ("enum", "int", L(2147483647)),
     ("enum", "int", B("shl", L(1, "u"), L(31))), ("enum", "int", K("uchar", L(511))),
+    # enum / pointer objects (CContext.pack on EnumType and PointerType)
+    ("einit", "int", neg(L(1))), ("einit", "int", L(4294967295, "u")), ("einit", "int", L(2147483648)),
+    ("einit", "int", B("sub", L(3), L(5))), ("einit", "int", L(7)), ("einit", "int", neg(L(2147483648))),
+    ("pinit", "int", neg(L(1))), ("pinit", "int", L(0)), ("pinit", "int", L(4294967295, "u")),
+    ("pinit", "int", K("int", neg(L(2)))), ("pinit", "int", L(18446744073709551615, "ull")),
     ("arr", "int", B("add", L(2), L(3))), ("arr", "int", L(16, "ul")), ("arr", "int", B("mod", L(7), L(4))),
     ("arr", "int", ("C", 10)), ("arr", "int", K("uchar", L(257))),
 ]
@@ -267,8 +285,12 @@ def gen_cases(ctx, n, depth):
     for _ in range(n):
         e = X.gen_expr(ctx.rng, ctx.rng.randint(1, depth))
         r = ctx.rng.random()
-        if r < 0.70:
+        if r < 0.60:
             cases.append(("init", ctx.rng.choice(X.TYPES), e))
+        elif r < 0.66:
+            cases.append(("einit", "int", e))
+        elif r < 0.70:
+            cases.append(("pinit", "int", e))
         elif r < 0.84:
             cases.append(("case", ctx.rng.choice(X.TYPES), e))
         elif r < 0.92:
@@ -297,7 +319,7 @@ def canon_impl(kind, r):
     """canonical text of what the real front-end did, in the driver's reply syntax"""
     st, obs = r
     if st == "ok":
-        if kind in ("init", "enum"):
+        if kind in ("init", "enum", "einit", "pinit"):
             if not isinstance(obs, (bytes, bytearray)):
                 return f"ok ?{obs}"
             if kind == "enum":
@@ -423,6 +445,8 @@ def validate_spec_with_gcc(ctx, cases, spec, stype):
             todo.append((kind, pty, e, int(s.split()[1]), s, st))
         elif kind == "arr" and int(s.split()[1]) > (1 << 20):
             continue
+        elif kind == "pinit" and st.split()[1] in ("char", "schar", "uchar", "short", "ushort") :
+            continue          # cannot occur: every expression is at least int
         else:
             todo.append((kind, ty, e, None, s, st))
     bad = 0
@@ -437,7 +461,7 @@ def validate_spec_with_gcc(ctx, cases, spec, stype):
         for (kind, ty, e, lab, s, st), o in zip(chunk, out):
             ctx.count("eval_gcc")
             want_t = st.split()[1]
-            if kind == "init":
+            if kind in ("init", "einit", "pinit"):
                 want = [want_t, s.split()[1]]
             elif kind == "case":
                 want = [want_t, "10"]
